@@ -133,7 +133,24 @@ func vfYield()                   {}
 func vfFreeze(x any)             {}
 func vfThaw(x any)               {}
 func vfTier() int                { return vfCur.Tier }
-func vfNote(k string, v any)     { vfRes.Notes = append(vfRes.Notes, vffmt.Sprintf("%s=%v", k, v)) }
+func vfNote(k string, v any) {
+	var s string
+	switch x := v.(type) {
+	case nil:
+		s = "<nil>"
+	case string:
+		s = vffmt.Sprintf("%q", x)
+	case *vfbig.Int:
+		if x == nil {
+			s = "<nilptr>"
+		} else {
+			s = x.String()
+		}
+	default:
+		s = vffmt.Sprintf("%v", v)
+	}
+	vfRes.Notes = append(vfRes.Notes, k+"="+s)
+}
 
 func vfExec(c *vfCase, fn func()) (res *vfResult) {
 	res = &vfResult{ID: c.ID, Harness: c.Harness}
